@@ -158,6 +158,10 @@ def gen_trees(tier):
         ("copysign", ("prod2", "x", "y"), ("sum2", "x", -1)),
         ("if", "x", ("pow2", "x"), ("prod2", 3, "x")), ("if", "y", "x", ("prod2", "x", "y")),
         ("prod3", "x", "x", "x"), ("sum3", "x", ("prod2", 2, "x"), ("pow2", "x")),
+        # different wrapped subexpressions whose hashes collide in CPython (hash(-1) == hash(-2))
+        ("sum2", ("cse", ("pow2", ("sum2", "x", -1))), ("cse", ("pow2", ("sum2", "x", -2)))),
+        ("sum2", ("cse", ("pow", "x", -1)), ("cse", ("pow", "x", -2))),
+        ("prod2", ("cse", ("prod2", -1, ("pow2", "x"))), ("cse", ("prod2", -2, ("pow2", "x")))),
     ]
     seen, res = set(), []
     for d in out:
